@@ -113,6 +113,17 @@ def f_placement(case):
         objb = B.np_list(L, K)
         holder.backward(objb)
         C.expect_list(B.read_list(objb), exp.inverse().apply(L, K), '%s%s on %d qubits through a %s, backward' % (name, tuple(q), N, case['via']), 'action-backward')
+    # the same gate object on registers of other sizes (a gate is not tied to the register it first met)
+    if case['via'] == 'gate':
+        for N2 in (N + 1, N + 2, N):
+            L2_, K2_ = _all_ops(N2) if N2 <= 3 else (np.pad(L, ((0, 0), (0, N2 - N))), K)
+            e2 = (_stmt_ref(name) if name not in ('C',) else ref.RefClifford(*B.read_list(g.forward_map))).embed([q[0], q[1]] if name == 'CNOT' else q, N2)
+            o5 = B.np_list(L2_, K2_)
+            g.forward(o5)
+            C.expect_list(B.read_list(o5), e2.apply(L2_, K2_), '%s%s: the same gate object applied to a register of %d qubits after one of %d' % (name, tuple(q), N2, N), 'action-other-register')
+            o6 = B.np_list(L2_, K2_)
+            g.backward(o6)
+            C.expect_list(B.read_list(o6), e2.inverse().apply(L2_, K2_), '%s%s: the same gate object run backward on a register of %d qubits after one of %d' % (name, tuple(q), N2, N), 'action-other-register')
     # the caller owns the gate it got: after it has edited that gate's table in place, the constructor must still hand out the textbook gate
     if g.forward_map is not None:
         g.forward_map.ps[:] = (g.forward_map.ps + 2) % 4
